@@ -44,8 +44,13 @@ fn apply_ref(r: &mut Ref, op: &MOp) {
 }
 fn apply_impl(m: &mut SlotMap, op: &MOp) {
     match op {
-        MOp::Insert(k, v) => m.insert(*k, *v),
-        MOp::Remove(k) => m.remove(*k),
+        // whatever the two methods return is not part of the property
+        MOp::Insert(k, v) => {
+            let _ = m.insert(*k, *v);
+        }
+        MOp::Remove(k) => {
+            let _ = m.remove(*k);
+        }
     }
 }
 
